@@ -83,7 +83,9 @@ def c06_sessions(V, tier):
     base = os.path.join(C.BUILD, "ws", "lsphist6-%d" % os.getpid())
     shutil.rmtree(base, ignore_errors=True)
 
-    def run_one(root, script, final, warm=False):
+    PAD = "\n" + "# padding: a large generated module\n" * 9000       # ~ 330 KB of comments after the last statement
+
+    def run_one(root, script, final, warm=False, burst=False):
         """script: list of (slot, version); final: slot -> version; warm: every handler is asked about every opened document
         after EVERY notification (answers discarded), so that whatever a handler keeps between requests is populated"""
         uni = H.mk_universe(root)
@@ -94,16 +96,33 @@ def c06_sessions(V, tier):
             srv.initialize(root + "/R")
             ver = {}
             now = {}
-            for slot, v in script:
+            last_of = {}
+            for i, (slot, v) in enumerate(script):
+                last_of[slot] = i
+            for i, (slot, v) in enumerate(script):
+                text = vt.text(slot, v)
+                if burst and last_of[slot] != i:
+                    text += PAD            # every superseded version is LARGE, the final one small
                 if slot not in ver:
                     ver[slot] = 1
-                    srv.did_open(uni.paths[slot], vt.text(slot, v))
+                    srv.did_open(uni.paths[slot], text, wait_diag=not burst)
                 else:
                     ver[slot] += 1
-                    srv.did_change(uni.paths[slot], vt.text(slot, v), version=ver[slot])
+                    srv.did_change(uni.paths[slot], text, version=ver[slot], wait_diag=not burst)
                 now[slot] = vt.r[(slot, v)]
                 if warm:
                     ask_everything(srv, root, uni, now)
+            if burst:
+                # the notifications went out back to back; wait until one publication per notification arrived, then a beat more
+                import time
+                deadline = time.time() + 20
+                want_n = {}
+                for slot, v in script:
+                    want_n[slot] = want_n.get(slot, 0) + 1
+                while time.time() < deadline and any(len(srv.diagnostics.get(lsp.path_to_uri(uni.paths[sl]), [])) < k for sl, k in want_n.items()):
+                    time.sleep(0.05)
+                srv.request("workspace/symbol", {"query": "zz"})
+                time.sleep(0.4)
             cur = {s: vt.r[(s, v)] for s, v in final.items()}
             return ask_everything(srv, root, uni, cur)
         finally:
@@ -117,7 +136,7 @@ def c06_sessions(V, tier):
         for f, v in hist:
             final[f] = v
         try:
-            long_lived = run_one(os.path.join(base, "L%d" % n), hist, final, warm=(n % 2 == 0))
+            long_lived = run_one(os.path.join(base, "L%d" % n), hist, final, warm=(n % 3 == 0), burst=(n % 3 == 1))
             fresh = run_one(os.path.join(base, "F%d" % n), [(f, final[f]) for f in case["okOrder"] if f in final], final)
         except (lsp.ServerDied, lsp.Timeout) as e:
             return {"error": str(e)}
